@@ -526,16 +526,17 @@ class RangeDimension(Dimension):
         super(RangeDimension, self).__init__(nixfile, data_array, index)
 
     def link_data_array(self, data_array, index):
-        if "ticks" in self._h5group:
-            # delete ticks to replace with link
-            self._h5group.delete("ticks", False)
+        # the link is validated first: a refused link must not cost the ticks
         super(RangeDimension, self).link_data_array(data_array, index)
+        if "ticks" in self._h5group:
+            # delete ticks, they are replaced by the link
+            self._h5group.delete("ticks", False)
 
     def link_data_frame(self, data_frame, index):
-        if "ticks" in self._h5group:
-            # delete ticks to replace with link
-            self._h5group.delete("ticks", False)
         super(RangeDimension, self).link_data_frame(data_frame, index)
+        if "ticks" in self._h5group:
+            # delete ticks, they are replaced by the link
+            self._h5group.delete("ticks", False)
 
     @classmethod
     def create_new(cls, data_array, index, ticks):
